@@ -155,7 +155,14 @@ class Analysis:
                 if rm:
                     for m in rm:
                         used.add(id(m[2]) if m[2] is not None else "closure-elem")
-                    self.txs.append(Tx("RELEASE", fn, [m[0] for m in rm], x, fx, [e]))
+                    # `list.retain(|k| *k != x)` removes x only IF it is there: the release is justified only where a
+                    # membership test on that very list was true on the way (an indexed removal names an element that
+                    # is there by construction)
+                    unproved = [m for m in rm if m[2] is not None and getattr(m[2], "kind", "") == "RETAIN" and guard_val(g, in_atom(x, m[0], fx)) is not True]
+                    okr = not unproved
+                    self.txs.append(Tx("RELEASE", fn, [m[0] for m in rm], x, fx, [e], guard_ok=okr,
+                                       why=None if okr else "Released(%s) is emitted and %s.retain(..) drops the key if present, but nothing on this path shows the key IS in %s (it may be up, or held in the other list)"
+                                       % (show(x)[:50], unproved[0][0], unproved[0][0])))
                 else:
                     self.txs.append(Tx("RELEASE", fn, [], x, fx, [e], guard_ok=False,
                                        why="Released(%s) is emitted but the key is not removed from pass_through_keys/mapped_output_keys on this path" % show(x)[:60]))
